@@ -7,6 +7,9 @@ scheduler, canonical observations, schedule enumeration and the shrinker.
 Operation form (JSON; the Lean model `PyGqlModel/AsyncExec.lean` reads the same):
 
   case   = {"kind": "query" | "mutation", "fields": [field ...]}
+  case may carry "serve": "methods" — fields have NO explicit resolver: the library `default_resolver` serves them from
+           METHODS of the root value / of the parent objects (`def f(self, ctx, info, **args)`, `async def` under asyncio,
+           methods returning `info.runtime.submit(...)`); same model, same oracles.
   case may carry "style": "plain" | "inline" | "spread" (how the top-level selection is written:
            directly, inside `... on <Root> { }`, or through one fragment spread) — not part of the model.
   field  = {"key": str, "mode": "sync" | "deferred" | "nested" | "ready", "ty": ty, "out": fo}
@@ -175,6 +178,8 @@ def gen_case(rng, kind=None, n_top=None, depth=2, **over):
     style = rng.choice(("plain", "plain", "inline", "spread"))
     if style != "plain":
         case["style"] = style
+    if rng.random() < p.get("p_methods", 0.3):
+        case["serve"] = "methods"
     return case
 
 
@@ -264,6 +269,8 @@ def features(case):
     for f in case["fields"]:
         w_f(f, f["out"], [])
     fs.add(case["kind"])
+    if case.get("serve") == "methods":
+        fs.add("served-by-methods")
     return fs
 
 
@@ -337,8 +344,10 @@ def build_schema(case, all_explicit=False):
             return ListType(mk_ty(ty["of"]))
         return ObjectType("T%d" % next(counter), [mk_field(f) for f in ty["fields"]])
 
+    methods = case.get("serve") == "methods"
+
     def mk_field(f):
-        explicit = all_explicit or f["mode"] != "sync"
+        explicit = (all_explicit or f["mode"] != "sync") and not methods
         return Field(f["key"], mk_ty(f["ty"]), resolver=r_explicit if explicit else None)
 
     root_fields = [mk_field(f) for f in case["fields"]]
@@ -347,7 +356,8 @@ def build_schema(case, all_explicit=False):
                         mutation_type=ObjectType("Mutation", root_fields))
     else:
         schema = Schema(query_type=ObjectType("Query", root_fields))
-    schema.default_resolver = r_default
+    if not methods:
+        schema.default_resolver = r_default
     return schema
 
 
@@ -424,6 +434,21 @@ class World:
         self.sizes = []
         self.choices = []
         self.boom_raised = 0
+        self.methods = case.get("serve") == "methods"
+        self.nomodel = False
+
+    def root_value(self):
+        return MethodObj(self, ()) if self.methods else None
+
+    def objectify(self, ty, rv, path):
+        """in `methods` mode object values are instances whose methods serve the sub-fields"""
+        if ty["t"] == "nn":
+            return self.objectify(ty["of"], rv, path)
+        if rv is None or rv in ("bad", "tonull") or ty["t"] == "int":
+            return py_value(ty, rv)
+        if ty["t"] == "list":
+            return [self.objectify(ty["of"], x, path + (i,)) for i, x in enumerate(rv)]
+        return MethodObj(self, path)
 
     # events -----------------------------------------------------------
     def ev(self, kind, path):
@@ -439,6 +464,8 @@ class World:
             if fo["r"] == "exc":
                 self.boom_raised += 1
                 raise make_unexpected(path)
+            if self.methods:
+                return self.objectify(f["ty"], fo["v"], path)
             return py_value(f["ty"], fo["v"])
         finally:
             self.ev("done", path)
@@ -451,6 +478,33 @@ class World:
 
 class BlockingWorld(World):
     pass
+
+
+class MethodObj:
+    """Root value / parent object whose METHODS are the resolvers (served by the library default resolver)."""
+
+    def __init__(self, world, path):
+        self.__dict__["_w"] = world
+        self.__dict__["_p"] = tuple(path)
+
+    def __getattr__(self, name):
+        w, p = self.__dict__["_w"], self.__dict__["_p"] + (name,)
+        entry = w.table.get(p)
+        if entry is None:
+            raise AttributeError(name)
+        if w.config == "asyncio" and entry[0]["mode"] in ("deferred", "nested") and sum(map(ord, str(p))) % 3 == 0:
+            # its body (and with it the `call` event) only starts when the loop schedules it — possibly never, if the
+            # overall result fails first: no comparison with the callback model's trace for this run
+            w.nomodel = True
+
+            async def amethod(ctx, info, **kw):          # an `async def` method of the root / parent value
+                r = w.resolve(info, False)
+                return await r
+            return amethod
+
+        def method(ctx, info, **kw):
+            return w.resolve(info, False)
+        return method
 
 
 class _Entry:
@@ -498,12 +552,38 @@ class _Inner:
         return self.world.body(self.label)
 
 
+class _Outer:
+    """first stage of a nested deferred: a pool task whose result is the Future of another pool task"""
+
+    def __init__(self, world, path, runtime):
+        self.world, self.label, self.runtime = world, path, runtime
+
+    def __call__(self):
+        return self.runtime.submit(_Inner(self.world, self.label))
+
+
 class ThreadPoolWorld(World):
     config = "threadpool"
 
     def resolve(self, info, explicit):
         path = tuple(info.path)
         f, fo = self.table[path]
+        if not explicit and self.methods and f["mode"] != "sync":
+            # a method of the root / parent value, called synchronously, that returns a Future itself
+            self.ev("call", path)
+            if f["mode"] == "deferred":
+                return info.runtime.submit(_Inner(self, path))
+            if f["mode"] == "nested":
+                outer = _Outer(self, path, info.runtime)
+                return info.runtime.submit(outer)
+            fut = Future()                          # ready: already finished
+            try:
+                fut.set_result(self.body(path))
+            except Watchdog:
+                raise
+            except BaseException as err:  # noqa
+                fut.set_exception(err)
+            return fut
         if not explicit:                       # default resolver: called synchronously by the executor
             self.ev("call", path)
             return self.body(path)
@@ -637,7 +717,7 @@ def exc_name(err):
 
 
 def obs_of_result(world, result=None, exc=None, status=None, steps=0):
-    o = {"status": status, "trace": world.trace, "sizes": world.sizes, "steps": steps, "choices": world.choices}
+    o = {"nomodel": world.nomodel, "status": status, "trace": world.trace, "sizes": world.sizes, "steps": steps, "choices": world.choices}
     if status == "ok":
         o["data"] = result.data
         o["errors"] = canon_errors(result.errors)
@@ -660,7 +740,7 @@ def run_blocking(case, generic=False):
     with watchdog():
         try:
             # the reference run goes through the full pipeline (document text, default validators)
-            res = process_graphql_query(schema, doc if generic else document(case), context=w, runtime=BlockingRuntime(),
+            res = process_graphql_query(schema, doc if generic else document(case), context=w, root=w.root_value(), runtime=BlockingRuntime(),
                                         validators=[] if generic else None,
                                         executor_cls=Executor if generic else BlockingExecutor)
         except Watchdog:
@@ -683,7 +763,7 @@ def run_threadpool(case, schedule):
     try:
         with watchdog():
             try:
-                fut = process_graphql_query(schema, doc, context=w, runtime=rt, executor_cls=Executor, validators=[])
+                fut = process_graphql_query(schema, doc, context=w, root=w.root_value(), runtime=rt, executor_cls=Executor, validators=[])
             except Watchdog:
                 raise
             except Exception as err:
@@ -717,7 +797,7 @@ def run_asyncio(case, schedule):
     try:
         with watchdog():
             try:
-                aw = process_graphql_query(schema, doc, context=w, runtime=rt, executor_cls=Executor, validators=[])
+                aw = process_graphql_query(schema, doc, context=w, root=w.root_value(), runtime=rt, executor_cls=Executor, validators=[])
             except Watchdog:
                 raise
             except Exception as err:
